@@ -44,6 +44,16 @@ structure Use where
   guard : List Atom
   deriving DecidableEq, Repr
 
+/-- A reference, inside the template text, to a declaration the template itself writes: a call of
+a generated method on the receiver of the enclosing method (`e.UnmarshalText(`) or of a generated
+function (`Parse«T»(`); `from` is the declaration the reference sits in. -/
+structure Ref where
+  kind : Kind
+  name : String
+  «from» : String
+  guard : List Atom
+  deriving DecidableEq, Repr
+
 /-- A boolean command-line option: struct field, flag alias, default. -/
 structure Option' where
   field : String
@@ -138,6 +148,13 @@ rendered under `env` (so the file does not rely on goimports finding the package
 def usesCovered (tbl : List Entry) (uses : List Use) (env : String → Bool) : Bool :=
   uses.all fun u => !optsHold env u.guard ||
     tbl.any fun e => e.kind == .imp && e.recv == u.pkg && perFile e.guard && optsHold env e.guard
+
+/-- Every reference to one of the template's own declarations that can be rendered under `env` has
+that declaration rendered under `env`, whatever the definition (so no section of the generated
+file calls into a section that an option switched off). -/
+def refsCovered (tbl : List Entry) (loop : String) (refs : List Ref) (env : String → Bool) : Bool :=
+  refs.all fun r => !optsHold env r.guard ||
+    tbl.any fun e => e.kind == r.kind && e.name == r.name && perType loop e.guard && optsHold env e.guard
 
 /-! ### genum -/
 
